@@ -756,6 +756,24 @@ pub fn gen(prop: &str, rng: &mut Rng, quick: bool, st: &mut Stats) -> Option<Vec
                     c.push(format!("chk_fault hdr_r {mode} {}", hex_bytes(&b[..127.min(b.len())])));
                 }
             }
+            // small archives with leaf directories opened with end- and start-bounded ranges: every operation x every
+            // error kind x with / without a message (an error must not be mistaken for an internal signal)
+            {
+                let t = |id: u64, run: u32, off: u64, len: u32| spec::SEntry { id, off, len, run };
+                let data: Vec<u8> = rng.bytes(60);
+                for icomp in [1u8, 2] {
+                    let l1 = spec::codec_compress(icomp, &spec::encode_dir(&[t(0, 1, 0, 4), t(1, 3, 4, 6), t(7, 1, 10, 2)]));
+                    let l2 = spec::codec_compress(icomp, &spec::encode_dir(&[t(30, 2, 20, 5), t(40, 1, 25, 9)]));
+                    let mut ls = l1.clone();
+                    ls.extend_from_slice(&l2);
+                    let root = [spec::SEntry { id: 0, off: 0, len: l1.len() as u32, run: 0 }, spec::SEntry { id: 30, off: l1.len() as u64, len: l2.len() as u32, run: 0 }];
+                    let b = raw_archive(icomp, &root, &ls, &data);
+                    for (k, rg) in ["u_u", "i2_i5", "u_i5", "i1f_u", "u_e0", "i8_i1d"].iter().enumerate() {
+                        c.push(format!("chk_fault_allkinds open {} {} {rg}", if k % 2 == 0 { "sync" } else { "async" }, hex_bytes(&b)));
+                        st.bump("open_faults_every_kind_with_and_without_message");
+                    }
+                }
+            }
             // hostile archives (whose fault-free open is an error): a fault at any operation must still not panic
             for (name, b) in hazards() {
                 if name.starts_with("arch") && declared_budget(&b).0 <= 20_000 {
@@ -1078,6 +1096,10 @@ pub fn run_chk(toks: &[&str]) -> Option<String> {
         ["chk_fault", kind, mode, data, args @ ..] => {
             let data = unhex_bytes(data);
             guard_chk(|| chk_fault(kind, mode, &data, args))
+        }
+        ["chk_fault_allkinds", kind, mode, data, args @ ..] => {
+            let data = unhex_bytes(data);
+            guard_chk(|| chk_fault_allkinds(kind, mode, &data, args))
         }
         ["chk_fault_nopanic", kind, mode, data, args @ ..] => {
             let data = unhex_bytes(data);
